@@ -1367,7 +1367,11 @@ impl PeerConnection {
                             "set_local_description(offer) requires stable signaling state".into(),
                         ));
                     }
+                    #[cfg(rustrtc_verif)]
+                    self.inner.vprobe("pre:sig.local.offer");
                     let _ = state.send(SignalingState::HaveLocalOffer);
+                    #[cfg(rustrtc_verif)]
+                    self.inner.vemit("sig", "local.offer");
                 }
                 SdpType::Answer => {
                     if *state.borrow() != SignalingState::HaveRemoteOffer {
@@ -1375,7 +1379,11 @@ impl PeerConnection {
                             "set_local_description(answer) requires remote offer".into(),
                         ));
                     }
+                    #[cfg(rustrtc_verif)]
+                    self.inner.vprobe("pre:sig.local.answer");
                     let _ = state.send(SignalingState::Stable);
+                    #[cfg(rustrtc_verif)]
+                    self.inner.vemit("sig", "local.answer");
                 }
                 SdpType::Pranswer => {
                     if *state.borrow() != SignalingState::HaveRemoteOffer {
@@ -1472,7 +1480,11 @@ impl PeerConnection {
                             "set_remote_description(offer) requires stable signaling state".into(),
                         ));
                     }
+                    #[cfg(rustrtc_verif)]
+                    self.inner.vprobe("pre:sig.remote.offer");
                     let _ = state.send(SignalingState::HaveRemoteOffer);
+                    #[cfg(rustrtc_verif)]
+                    self.inner.vemit("sig", "remote.offer");
                 }
                 SdpType::Answer => {
                     if *state.borrow() != SignalingState::HaveLocalOffer {
@@ -1480,7 +1492,11 @@ impl PeerConnection {
                             "set_remote_description(answer) requires local offer".into(),
                         ));
                     }
+                    #[cfg(rustrtc_verif)]
+                    self.inner.vprobe("pre:sig.remote.answer");
                     let _ = state.send(SignalingState::Stable);
+                    #[cfg(rustrtc_verif)]
+                    self.inner.vemit("sig", "remote.answer");
                 }
                 SdpType::Pranswer => {
                     // Provisional answer (SIP 183 early media): set up media transport like an
@@ -2022,20 +2038,37 @@ impl PeerConnection {
     ) -> Pin<Box<dyn Future<Output = ()> + Send>> {
         let done = Arc::new(Notify::new());
         let mut handles = Vec::with_capacity(loops.len());
+        #[cfg(rustrtc_verif)]
+        self.inner.vemit("loops_start", &format!("{}", loops.len()));
+        #[cfg(rustrtc_verif)]
+        let vlabel = self.inner.vlabel().to_string();
+        #[cfg(rustrtc_verif)]
+        let mut vidx = 0i64;
 
         for fut in loops {
             let done = done.clone();
+            #[cfg(rustrtc_verif)]
+            let vl = vlabel.clone();
+            #[cfg(rustrtc_verif)]
+            let vi = {
+                vidx += 1;
+                vidx
+            };
             let handle = crate::spawn_rtc(
                 self.inner.config.runtime_handle.as_ref(),
                 self.inner.pc_span.clone(),
                 async move {
                     let _done = TransportLoopDone(done);
+                    #[cfg(rustrtc_verif)]
+                    let _vscope = VerifScope::new(&vl, "tloop", vi);
                     fut.await;
                 },
             );
             handles.push(handle);
         }
 
+        #[cfg(rustrtc_verif)]
+        self.inner.vprobe("loops.spawned");
         Box::pin(async move {
             let _guard = LoopsGuard(handles);
             done.notified().await;
@@ -2198,6 +2231,10 @@ impl PeerConnection {
             .ice_transport
             .set_data_receiver(ice_conn_for_data)
             .await;
+            #[cfg(rustrtc_verif)]
+            self.inner.vemit("dtls_started", if is_client { "client" } else { "server" });
+            #[cfg(rustrtc_verif)]
+            self.inner.vprobe("dtls.handshaking");
 
         let sctp_port = if let Some(caps) = &self.config().media_capabilities {
             if let Some(app) = &caps.application {
@@ -2278,7 +2315,13 @@ impl PeerConnection {
             let state = state_rx.borrow().clone();
             match state {
                 crate::transports::dtls::DtlsState::Connected(_, profile_opt) => {
+                    #[cfg(rustrtc_verif)]
+                    self.inner.vemit("dtls_connected", if is_client { "client" } else { "server" });
+                    #[cfg(rustrtc_verif)]
+                    self.inner.vprobe("dtls.connected");
                     self.setup_srtp(&dtls_clone, is_client, profile_opt, &rtp_transport_clone);
+                    #[cfg(rustrtc_verif)]
+                    self.inner.vprobe("srtp.installed");
 
                     let rtcp_loop = Self::create_rtcp_loop(
                         rtp_transport_clone.clone(),
@@ -2397,6 +2440,12 @@ impl PeerConnection {
                     tx_key_salt[..key_len].to_vec(),
                     tx_key_salt[key_len..key_len + salt_len].to_vec(),
                 );
+                #[cfg(rustrtc_verif)]
+                crate::verif::emit("pc", self.inner.vlabel(), "srtp_keys", serde_json::json!({
+                    "kind": "sdes", "is_client": false, "profile": format!("{:?}", profile),
+                    "tx": crate::verif::hash32(&tx_key_salt[..key_len + salt_len]),
+                    "rx": crate::verif::hash32(&rx_key_salt[..key_len + salt_len]),
+                }));
 
                 (tx_keying, rx_keying, profile)
             } else {
@@ -2476,6 +2525,12 @@ impl PeerConnection {
 
             let tx_keying = crate::srtp::SrtpKeyingMaterial::new(tx_key.to_vec(), tx_salt.to_vec());
             let rx_keying = crate::srtp::SrtpKeyingMaterial::new(rx_key.to_vec(), rx_salt.to_vec());
+            #[cfg(rustrtc_verif)]
+            crate::verif::emit("pc", self.inner.vlabel(), "srtp_keys", serde_json::json!({
+                "kind": "dtls", "is_client": is_client, "profile": format!("{:?}", profile),
+                "tx": crate::verif::hash32(&[tx_key, tx_salt].concat()),
+                "rx": crate::verif::hash32(&[rx_key, rx_salt].concat()),
+            }));
 
             match crate::srtp::SrtpSession::new(profile, tx_keying, rx_keying) {
                 Ok(session) => {
@@ -3827,6 +3882,8 @@ async fn run_gathering_loop(
     ice_gathering_state_tx: watch::Sender<IceGatheringState>,
     inner_weak: std::sync::Weak<PeerConnectionInner>,
 ) {
+    #[cfg(rustrtc_verif)]
+    let _vscope = VerifScope::from_weak(&inner_weak, "gathering_loop");
     let mut rx = ice_transport.subscribe_gathering_state();
     let mut ice_state_rx = ice_transport.subscribe_state();
     let mut cand_rx = ice_transport.subscribe_candidates();
@@ -3896,6 +3953,8 @@ async fn run_rtp_direct_loop(
     ice_connection_state_tx: watch::Sender<IceConnectionState>,
     inner_weak: std::sync::Weak<PeerConnectionInner>,
 ) {
+    #[cfg(rustrtc_verif)]
+    let _vscope = VerifScope::from_weak(&inner_weak, "rtp_direct_loop");
     let mut ice_state_rx = ice_transport.subscribe_state();
     loop {
         let ice_state = *ice_state_rx.borrow_and_update();
@@ -3912,6 +3971,10 @@ async fn run_rtp_direct_loop(
             crate::transports::ice::IceTransportState::Closed => IceConnectionState::Closed,
         };
         let _ = ice_connection_state_tx.send(pc_ice_state);
+        #[cfg(rustrtc_verif)]
+        if let Some(inner) = inner_weak.upgrade() {
+            inner.vemit("ice_seen", &format!("{:?}", ice_state));
+        }
 
         match ice_state {
             crate::transports::ice::IceTransportState::Connected
@@ -3931,7 +3994,11 @@ async fn run_rtp_direct_loop(
                             false
                         }
                     });
+                    #[cfg(rustrtc_verif)]
+                    inner.vprobe("pre:direct.ice_failed");
                     let _ = inner.peer_state.send(PeerConnectionState::Failed);
+                    #[cfg(rustrtc_verif)]
+                    inner.vemit("pub", "direct.ice_failed");
                 }
                 return;
             }
@@ -3945,7 +4012,11 @@ async fn run_rtp_direct_loop(
                             false
                         }
                     });
+                    #[cfg(rustrtc_verif)]
+                    inner.vprobe("pre:direct.ice_closed");
                     let _ = inner.peer_state.send(PeerConnectionState::Closed);
+                    #[cfg(rustrtc_verif)]
+                    inner.vemit("pub", "direct.ice_closed");
                 }
                 return;
             }
@@ -3964,6 +4035,8 @@ async fn run_ice_dtls_loop(
     mut dtls_role_rx: watch::Receiver<Option<bool>>,
     inner_weak: std::sync::Weak<PeerConnectionInner>,
 ) {
+    #[cfg(rustrtc_verif)]
+    let _vscope = VerifScope::from_weak(&inner_weak, "ice_dtls_loop");
     let mut ice_state_rx = ice_transport.subscribe_state();
     // Subscribe once; the channel starts as None and transitions to Some(_) exactly once.
     let mut nomination_complete_rx = ice_transport.subscribe_nomination_complete();
@@ -3982,6 +4055,10 @@ async fn run_ice_dtls_loop(
             crate::transports::ice::IceTransportState::Closed => IceConnectionState::Closed,
         };
         let _ = ice_connection_state_tx.send(pc_ice_state);
+        #[cfg(rustrtc_verif)]
+        if let Some(inner) = inner_weak.upgrade() {
+            inner.vemit("ice_seen", &format!("{:?}", ice_state));
+        }
         match ice_state {
             crate::transports::ice::IceTransportState::Connected
             | crate::transports::ice::IceTransportState::Completed => {
@@ -4088,7 +4165,11 @@ async fn run_ice_dtls_loop(
                             false
                         }
                     });
+                    #[cfg(rustrtc_verif)]
+                    inner.vprobe("pre:iceloop.ice_failed");
                     let _ = inner.peer_state.send(PeerConnectionState::Failed);
+                    #[cfg(rustrtc_verif)]
+                    inner.vemit("pub", "iceloop.ice_failed");
                 }
                 return;
             }
@@ -4102,7 +4183,11 @@ async fn run_ice_dtls_loop(
                             false
                         }
                     });
+                    #[cfg(rustrtc_verif)]
+                    inner.vprobe("pre:iceloop.ice_closed");
                     let _ = inner.peer_state.send(PeerConnectionState::Closed);
+                    #[cfg(rustrtc_verif)]
+                    inner.vemit("pub", "iceloop.ice_closed");
                 }
                 return;
             }
@@ -4156,11 +4241,15 @@ async fn handle_connected_state_no_dtls(
     inner_weak: &std::sync::Weak<PeerConnectionInner>,
     ice_state_rx: &mut watch::Receiver<crate::transports::ice::IceTransportState>,
 ) -> bool {
+    #[cfg(rustrtc_verif)]
+    let _vscope = VerifScope::from_weak(inner_weak, "conn_state");
     if let Some(inner) = inner_weak.upgrade() {
         let pc_temp = PeerConnection {
             inner: inner.clone(),
         };
         // For RTP/SRTP, we pass false as is_client, but it doesn't matter as start_dtls handles it
+        #[cfg(rustrtc_verif)]
+        inner.vemit("start_transport", "nodtls");
         match pc_temp.start_dtls(false).await {
             Err(e) => {
                 debug!("Transport start failed: {}", e);
@@ -4172,11 +4261,19 @@ async fn handle_connected_state_no_dtls(
                         false
                     }
                 });
+                #[cfg(rustrtc_verif)]
+                inner.vprobe("pre:nodtls.start_failed");
                 let _ = inner.peer_state.send(PeerConnectionState::Failed);
+                #[cfg(rustrtc_verif)]
+                inner.vemit("pub", "nodtls.start_failed");
                 return false;
             }
             Ok(mut rtcp_loop) => {
+                #[cfg(rustrtc_verif)]
+                inner.vprobe("pre:nodtls.connected");
                 let _ = inner.peer_state.send(PeerConnectionState::Connected);
+                #[cfg(rustrtc_verif)]
+                inner.vemit("pub", "nodtls.connected");
                 let grace = inner.config.ice_disconnect_grace;
                 drop(inner);
 
@@ -4188,6 +4285,8 @@ async fn handle_connected_state_no_dtls(
                         _ = &mut rtcp_loop => {
                             if let Some(inner) = inner_weak.upgrade() {
                                 propagate_sctp_close_reason(&inner);
+                                #[cfg(rustrtc_verif)]
+                                inner.vemit("loops_done", "nodtls");
                             }
                             break;
                         }
@@ -4200,7 +4299,11 @@ async fn handle_connected_state_no_dtls(
                             match new_state {
                                 crate::transports::ice::IceTransportState::Disconnected => {
                                     if let Some(inner) = inner_weak.upgrade() {
+                                        #[cfg(rustrtc_verif)]
+                                        inner.vprobe("pre:nodtls.ice_disc");
                                         let _ = inner.peer_state.send(PeerConnectionState::Disconnected);
+                                        #[cfg(rustrtc_verif)]
+                                        inner.vemit("pub", "nodtls.ice_disc");
                                     }
                                     let epoch = disconnect_epoch;
                                     let tx = grace_tx.clone();
@@ -4217,7 +4320,11 @@ async fn handle_connected_state_no_dtls(
                                 | crate::transports::ice::IceTransportState::Completed => {
                                     disconnect_epoch += 1;
                                     if let Some(inner) = inner_weak.upgrade() {
+                                        #[cfg(rustrtc_verif)]
+                                        inner.vprobe("pre:nodtls.ice_rec");
                                         let _ = inner.peer_state.send(PeerConnectionState::Connected);
+                                        #[cfg(rustrtc_verif)]
+                                        inner.vemit("pub", "nodtls.ice_rec");
                                     }
                                     debug!("ICE recovered (epoch {}), grace cancelled", disconnect_epoch);
                                 }
@@ -4235,7 +4342,11 @@ async fn handle_connected_state_no_dtls(
                                             false
                                         }
                                     });
+                                    #[cfg(rustrtc_verif)]
+                                    inner.vprobe("pre:nodtls.grace");
                                     let _ = inner.peer_state.send(PeerConnectionState::Disconnected);
+                                    #[cfg(rustrtc_verif)]
+                                    inner.vemit("pub", "nodtls.grace");
                                     if let Some(sctp) = inner.sctp_transport.lock().as_ref() {
                                         sctp.close();
                                     }
@@ -4259,6 +4370,8 @@ async fn handle_connected_state(
     dtls_role_rx: &mut watch::Receiver<Option<bool>>,
     ice_state_rx: &mut watch::Receiver<crate::transports::ice::IceTransportState>,
 ) -> bool {
+    #[cfg(rustrtc_verif)]
+    let _vscope = VerifScope::from_weak(inner_weak, "conn_state");
     loop {
         let role = *dtls_role_rx.borrow_and_update();
         if let Some(is_client) = role {
@@ -4267,6 +4380,8 @@ async fn handle_connected_state(
                     inner: inner.clone(),
                 };
 
+                #[cfg(rustrtc_verif)]
+                inner.vemit("start_transport", if is_client { "client" } else { "server" });
                 match pc_temp.start_dtls(is_client).await {
                     Err(e) => {
                         debug!("DTLS start failed: {}", e);
@@ -4278,11 +4393,19 @@ async fn handle_connected_state(
                                 false
                             }
                         });
+                        #[cfg(rustrtc_verif)]
+                        inner.vprobe("pre:conn.start_failed");
                         let _ = inner.peer_state.send(PeerConnectionState::Failed);
+                        #[cfg(rustrtc_verif)]
+                        inner.vemit("pub", "conn.start_failed");
                         return false;
                     }
                     Ok(mut rtcp_loop) => {
+                        #[cfg(rustrtc_verif)]
+                        inner.vprobe("pre:conn.connected");
                         let _ = inner.peer_state.send(PeerConnectionState::Connected);
+                        #[cfg(rustrtc_verif)]
+                        inner.vemit("pub", "conn.connected");
 
                         let dtls_state_rx = {
                             let dtls_guard = inner.dtls_transport.lock();
@@ -4297,6 +4420,8 @@ async fn handle_connected_state(
                                 tokio::select! {
                                     _ = &mut rtcp_loop => {
                                         propagate_sctp_close_reason(&inner);
+                                        #[cfg(rustrtc_verif)]
+                                        inner.vemit("loops_done", "conn");
                                         break;
                                     }
                                     res = ice_state_rx.changed() => {
@@ -4307,7 +4432,11 @@ async fn handle_connected_state(
                                         }
                                         match new_state {
                                             crate::transports::ice::IceTransportState::Disconnected => {
+                                                #[cfg(rustrtc_verif)]
+                                                inner.vprobe("pre:conn.ice_disc");
                                                 let _ = inner.peer_state.send(PeerConnectionState::Disconnected);
+                                                #[cfg(rustrtc_verif)]
+                                                inner.vemit("pub", "conn.ice_disc");
                                                 let _ = ice_connection_state_tx.send(IceConnectionState::Disconnected);
                                                 let epoch = disconnect_epoch;
                                                 let tx = grace_tx.clone();
@@ -4323,7 +4452,11 @@ async fn handle_connected_state(
                                             crate::transports::ice::IceTransportState::Connected
                                             | crate::transports::ice::IceTransportState::Completed => {
                                                 disconnect_epoch += 1;
+                                                #[cfg(rustrtc_verif)]
+                                                inner.vprobe("pre:conn.ice_rec");
                                                 let _ = inner.peer_state.send(PeerConnectionState::Connected);
+                                                #[cfg(rustrtc_verif)]
+                                                inner.vemit("pub", "conn.ice_rec");
                                                 let _ = ice_connection_state_tx.send(IceConnectionState::Connected);
                                                 debug!("ICE recovered (epoch {}), grace cancelled", disconnect_epoch);
                                             }
@@ -4343,7 +4476,11 @@ async fn handle_connected_state(
                                                 let _ = inner.disconnect_reason.send_if_modified(|cur| {
                                                     if cur.is_none() { *cur = Some(reason); true } else { false }
                                                 });
+                                                #[cfg(rustrtc_verif)]
+                                                inner.vprobe("pre:conn.dtls_end");
                                                 let _ = inner.peer_state.send(PeerConnectionState::Disconnected);
+                                                #[cfg(rustrtc_verif)]
+                                                inner.vemit("pub", "conn.dtls_end");
                                                 let _ = ice_connection_state_tx.send(IceConnectionState::Disconnected);
                                                 return false;
                                             }
@@ -4361,7 +4498,11 @@ async fn handle_connected_state(
                                                     false
                                                 }
                                             });
+                                            #[cfg(rustrtc_verif)]
+                                            inner.vprobe("pre:conn.grace");
                                             let _ = inner.peer_state.send(PeerConnectionState::Disconnected);
+                                            #[cfg(rustrtc_verif)]
+                                            inner.vemit("pub", "conn.grace");
                                             let _ = ice_connection_state_tx.send(IceConnectionState::Disconnected);
                                             if let Some(sctp) = inner.sctp_transport.lock().as_ref() {
                                                 sctp.close();
@@ -4380,6 +4521,8 @@ async fn handle_connected_state(
                                 tokio::select! {
                                     _ = &mut rtcp_loop => {
                                         propagate_sctp_close_reason(&inner);
+                                        #[cfg(rustrtc_verif)]
+                                        inner.vemit("loops_done", "connx");
                                         break;
                                     }
                                     res = ice_state_rx.changed() => {
@@ -4390,7 +4533,11 @@ async fn handle_connected_state(
                                         }
                                         match new_state {
                                             crate::transports::ice::IceTransportState::Disconnected => {
+                                                #[cfg(rustrtc_verif)]
+                                                inner.vprobe("pre:connx.ice_disc");
                                                 let _ = inner.peer_state.send(PeerConnectionState::Disconnected);
+                                                #[cfg(rustrtc_verif)]
+                                                inner.vemit("pub", "connx.ice_disc");
                                                 let _ = ice_connection_state_tx.send(IceConnectionState::Disconnected);
                                                 let epoch = disconnect_epoch;
                                                 let tx = grace_tx.clone();
@@ -4406,7 +4553,11 @@ async fn handle_connected_state(
                                             crate::transports::ice::IceTransportState::Connected
                                             | crate::transports::ice::IceTransportState::Completed => {
                                                 disconnect_epoch += 1;
+                                                #[cfg(rustrtc_verif)]
+                                                inner.vprobe("pre:connx.ice_rec");
                                                 let _ = inner.peer_state.send(PeerConnectionState::Connected);
+                                                #[cfg(rustrtc_verif)]
+                                                inner.vemit("pub", "connx.ice_rec");
                                                 let _ = ice_connection_state_tx.send(IceConnectionState::Connected);
                                                 debug!("ICE recovered (epoch {}), grace cancelled", disconnect_epoch);
                                             }
@@ -4423,7 +4574,11 @@ async fn handle_connected_state(
                                                     false
                                                 }
                                             });
+                                            #[cfg(rustrtc_verif)]
+                                            inner.vprobe("pre:connx.grace");
                                             let _ = inner.peer_state.send(PeerConnectionState::Disconnected);
+                                            #[cfg(rustrtc_verif)]
+                                            inner.vemit("pub", "connx.grace");
                                             let _ = ice_connection_state_tx.send(IceConnectionState::Disconnected);
                                             if let Some(sctp) = inner.sctp_transport.lock().as_ref() {
                                                 sctp.close();
@@ -5432,7 +5587,11 @@ impl PeerConnectionInner {
     }
 
     fn close_with_reason(&self, reason: DisconnectReason) {
+        #[cfg(rustrtc_verif)]
+        self.vemit_r("close_begin", verif_reason_name(&reason), "");
         if *self.peer_state.borrow() == PeerConnectionState::Closed {
+            #[cfg(rustrtc_verif)]
+            self.vemit_r("close_noop", "", "");
             return;
         }
 
@@ -5479,9 +5638,15 @@ impl PeerConnectionInner {
         }
 
         let _ = self.signaling_state.send(SignalingState::Closed);
+        #[cfg(rustrtc_verif)]
+        self.vprobe("pre:close");
         let _ = self.peer_state.send(PeerConnectionState::Closed);
         let _ = self.ice_connection_state.send(IceConnectionState::Closed);
         let _ = self.ice_gathering_state.send(IceGatheringState::Complete);
+        #[cfg(rustrtc_verif)]
+        self.vemit_r("pub", "close", verif_reason_name(&final_reason));
+        #[cfg(rustrtc_verif)]
+        self.vprobe("close.published");
 
         // Clean up all tracks to prevent audio bleeding into new connections
         {
@@ -5547,14 +5712,20 @@ impl PeerConnectionInner {
         }
 
         // Close SCTP transport before closing DTLS/ICE to stop retransmission timers
+        #[cfg(rustrtc_verif)]
+        self.vprobe("close.pre_sctp");
         if let Some(sctp) = self.sctp_transport.lock().take() {
             sctp.close();
         }
 
+        #[cfg(rustrtc_verif)]
+        self.vprobe("close.pre_dtls");
         if let Some(dtls) = self.dtls_transport.lock().as_ref() {
             dtls.close();
         }
 
+        #[cfg(rustrtc_verif)]
+        self.vprobe("close.pre_ice");
         self.ice_transport.stop();
         let extra_ice = self
             .rtp_media_ice_transports
@@ -5565,6 +5736,8 @@ impl PeerConnectionInner {
         for transport in extra_ice {
             transport.stop();
         }
+        #[cfg(rustrtc_verif)]
+        self.vemit_r("close_end", "", verif_reason_name(&final_reason));
     }
 }
 
@@ -5572,10 +5745,126 @@ impl Drop for PeerConnectionInner {
     fn drop(&mut self) {
         self.pc_span
             .in_scope(|| debug!("PeerConnectionInner dropped, stopping ICE transport"));
+        #[cfg(rustrtc_verif)]
+        self.vemit_r("drop_begin", "", "");
         self.close_with_reason(DisconnectReason::Dropped);
         // Belt-and-suspenders: abort any tracked task that survived cooperative
         // shutdown so it (and the Arcs it captured) cannot outlive the PC.
         self.abort_tracked_tasks();
+        #[cfg(rustrtc_verif)]
+        self.vemit_r("drop_end", "", "");
+    }
+}
+
+#[cfg(rustrtc_verif)]
+pub(crate) fn verif_reason_name(r: &DisconnectReason) -> &'static str {
+    match r {
+        DisconnectReason::LocalClose => "LocalClose",
+        DisconnectReason::Dropped => "Dropped",
+        DisconnectReason::IceFailed => "IceFailed",
+        DisconnectReason::IceDisconnected => "IceDisconnected",
+        DisconnectReason::DtlsFailed => "DtlsFailed",
+        DisconnectReason::DtlsClosed => "DtlsClosed",
+        DisconnectReason::SctpHeartbeatTimeout => "SctpHeartbeatTimeout",
+        DisconnectReason::SctpPeerDead => "SctpPeerDead",
+        DisconnectReason::SctpRemoteAbort => "SctpRemoteAbort",
+        DisconnectReason::SctpRemoteShutdown => "SctpRemoteShutdown",
+        DisconnectReason::TransportStartFailed(_) => "TransportStartFailed",
+        DisconnectReason::Unknown(_) => "Unknown",
+    }
+}
+
+/// Verification hooks (H5): events carry a snapshot of what the application can observe.
+#[cfg(rustrtc_verif)]
+impl PeerConnectionInner {
+    pub(crate) fn vlabel(&self) -> &str {
+        self.config.label.as_deref().unwrap_or("?")
+    }
+
+    /// Event with the current disconnect reason read from the watch. Must not be
+    /// called while a `disconnect_reason.borrow()` guard is alive (use `vemit_r`).
+    pub(crate) fn vemit(&self, ev: &'static str, site: &str) {
+        if !crate::verif::enabled() {
+            return;
+        }
+        let reason = self
+            .disconnect_reason
+            .borrow()
+            .as_ref()
+            .map(verif_reason_name)
+            .unwrap_or("None");
+        self.vemit_r(ev, site, reason);
+    }
+
+    pub(crate) fn vemit_r(&self, ev: &'static str, site: &str, reason: &str) {
+        if !crate::verif::enabled() {
+            return;
+        }
+        crate::verif::emit(
+            "pc",
+            self.vlabel(),
+            ev,
+            serde_json::json!({
+                "site": site,
+                "peer": format!("{:?}", *self.peer_state.borrow()),
+                "sig": format!("{:?}", *self.signaling_state.borrow()),
+                "ice": format!("{:?}", *self.ice_connection_state.borrow()),
+                "reason": reason,
+            }),
+        );
+    }
+
+    pub(crate) fn vprobe(&self, point: &str) {
+        crate::verif::probe("pc", self.vlabel(), point);
+    }
+}
+
+/// Emits `proc_start` on creation and `proc_exit` when dropped (normal return,
+/// cancellation by abort, or panic), so task lifetimes are visible in traces.
+#[cfg(rustrtc_verif)]
+pub(crate) struct VerifScope {
+    label: String,
+    proc_name: &'static str,
+    idx: i64,
+}
+
+#[cfg(rustrtc_verif)]
+impl VerifScope {
+    pub(crate) fn new(label: &str, proc_name: &'static str, idx: i64) -> Self {
+        crate::verif::emit(
+            "pc",
+            label,
+            "proc_start",
+            serde_json::json!({"proc": proc_name, "idx": idx}),
+        );
+        Self {
+            label: label.to_string(),
+            proc_name,
+            idx,
+        }
+    }
+
+    fn from_weak(
+        weak: &std::sync::Weak<PeerConnectionInner>,
+        proc_name: &'static str,
+    ) -> Self {
+        let label = weak
+            .upgrade()
+            .map(|i| i.vlabel().to_string())
+            .unwrap_or_else(|| "?".to_string());
+        Self::new(&label, proc_name, 0)
+    }
+}
+
+#[cfg(rustrtc_verif)]
+impl Drop for VerifScope {
+    fn drop(&mut self) {
+        crate::verif::emit(
+            "pc",
+            &self.label,
+            "proc_exit",
+            serde_json::json!({"proc": self.proc_name, "idx": self.idx}),
+        );
     }
 }
 
